@@ -473,8 +473,13 @@ func (ndb *nodeDB) deleteVersion(version int64, cache *rootkeyCache) error {
 		ndb.logger.Error("Error while pruning, moving on the the next version in the store", "version missing", version, "next version", version+1, "err", err)
 	}
 
+	literalRootKey := GetRootKey(version)
+	rootOrphaned, traversed := false, false
 	if rootKey != nil {
-		if err := ndb.traverseOrphansWithRootkeyCache(cache, version, version+1, func(orphan *Node) error {
+		err := ndb.traverseOrphansWithRootkeyCache(cache, version, version+1, func(orphan *Node) error {
+			if !orphan.isLegacy && orphan.nodeKey.nonce == 1 && orphan.nodeKey.version == version {
+				rootOrphaned = true
+			}
 			if orphan.nodeKey.nonce == 0 && !orphan.isLegacy {
 				// if the orphan is a reformatted root, it can be a legacy root
 				// so it should be removed from the pruning process.
@@ -493,12 +498,13 @@ func (ndb *nodeDB) deleteVersion(version int64, cache *rootkeyCache) error {
 				return ndb.deleteFromPruning(ndb.legacyNodeKey(nk))
 			}
 			return ndb.deleteFromPruning(ndb.nodeKey(nk))
-		}); err != nil && !errors.Is(err, ErrVersionDoesNotExist) {
+		})
+		if err != nil && !errors.Is(err, ErrVersionDoesNotExist) {
 			return err
 		}
+		traversed = err == nil
 	}
 
-	literalRootKey := GetRootKey(version)
 	if rootKey == nil || !bytes.Equal(rootKey, literalRootKey) {
 		// if the root key is not matched with the literal root key, it means the given root
 		// is a reference root to the previous version.
@@ -512,18 +518,23 @@ func (ndb *nodeDB) deleteVersion(version int64, cache *rootkeyCache) error {
 	if err != nil && !errors.Is(err, ErrVersionDoesNotExist) {
 		return err
 	}
-	if bytes.Equal(literalRootKey, nextRootKey) {
-		root, err := ndb.GetNode(nextRootKey)
+	// the root node of this version survives if it is the next root, or if it is still
+	// referenced from inside the next tree (it was not reported as an orphan)
+	survives := bytes.Equal(literalRootKey, nextRootKey) ||
+		(traversed && bytes.Equal(rootKey, literalRootKey) && !rootOrphaned)
+	if survives {
+		root, err := ndb.GetNode(literalRootKey)
 		if err != nil {
+			return err
+		}
+		// the root should be reformatted to (version, 0); write the new copy first so that
+		// the node is never absent from the store if the batch is flushed in between
+		root.nodeKey.nonce = 0
+		if err := ndb.saveNodeFromPruning(root); err != nil {
 			return err
 		}
 		// ensure that the given version is not included in the root search
 		if err := ndb.deleteFromPruning(ndb.nodeKey(literalRootKey)); err != nil {
-			return err
-		}
-		// instead, the root should be reformatted to (version, 0)
-		root.nodeKey.nonce = 0
-		if err := ndb.saveNodeFromPruning(root); err != nil {
 			return err
 		}
 	}
